@@ -1744,7 +1744,14 @@ bool TypeChecker::isTypeAssignableFromOtherType(
                         && isNULLPointerConstant(node)))));
 }
 
-SyntaxVisitor::Action TypeChecker::visitSequencingExpression(const SequencingExpressionSyntax*) { return Action::Skip; }
+SyntaxVisitor::Action TypeChecker::visitSequencingExpression(const SequencingExpressionSyntax* node)
+{
+    // The type of a comma expression is that of its right operand (6.5.17-2).
+    VISIT(node->left());
+    VISIT(node->right());
+
+    return typeChecked(node, ty_);
+}
 SyntaxVisitor::Action TypeChecker::visitExtGNU_ChooseExpression(const ExtGNU_ChooseExpressionSyntax*) { return Action::Skip; }
 
 //------------//
